@@ -20,12 +20,25 @@ PROPS = {
         explanation="C01 arithmetic theorems for all n; closed-loop history theorem not yet built (see level_note)",
     ),
     "C07": dict(
-        engines=[dict(name="arith", quick=700, thorough=40000, shard=500, trivial_tags=[])],
+        engines=[dict(name="arith", quick=700, thorough=40000, shard=500, trivial_tags=[]),
+                 dict(name="gateway", quick=200, thorough=10000, shard=25, search=400, trivial_tags=["no-stable-rule"])],
         rule="as C01 (arith engine): the readiness target DesiredUpdatedReplicas returned by the real CalculateBatchContext is compared with what the knob "
              "left by the real UpgradeBatch admits",
         trusted=["exposed(kind, knob, n) as in C01"],
         assumptions=["steps valid as enforced by admission"],
         explanation="C07_target_suffices for all n outside three characterised regions, each refuted by a witness and listed as a known finding",
+    ),
+    "C13": dict(
+        engines=[dict(name="gateway", quick=400, thorough=20000, shard=25, search=800, trivial_tags=["no-stable-rule"])],
+        rule="seeded generator of HTTPRoutes (1-4 rules, 1-2 matches with path/headers/query/method, filters, 0-3 backendRefs naming the stable Service, "
+             "other Services, nil or foreign kinds, weights) x sequences of 1-3 steps (weights 0..100 incl. 0/1/99/100, or 1-3 user matches mixing path, "
+             "header and query matchers in any order) followed by finalise; every operation is run on the real provider through the fake client and then "
+             "repeated once (fixed-point probe); non-trivial = the route has a rule that targets the stable Service; distinct = distinct input JSON",
+        trusted=["opaque parts of rules and backendRefs (filters, ports, namespaces) are compared through a SHA-1 digest of their JSON",
+                 "request semantics: accepts/rule_accepts/user_ok of Proofs/Gateway.v, parametric in the gateway's value comparison"],
+        assumptions=["a rule's match list is non-empty (the HTTPRoute CRD defaults it to PathPrefix /)", "the user's own rules do not reference the canary Service",
+                     "stable and canary Service names differ"],
+        explanation="theorems over all rule lists; oracle booleans (exact_split etc.) are the same definitions the theorems are about",
     ),
     "C12": dict(
         engines=[dict(name="labelpatch", quick=400, thorough=20000, shard=400, trivial_tags=["no-write"])],
@@ -60,6 +73,15 @@ MANIFEST_TEXT = {
         note="Partial: termination of the whole healthy rollout (fair schedules, wake-ups) is not proved; it is outside what the current model carries. "
              "exposed() assumed.",
         design_ref="DESIGN.md section 9, C07"),
+    "C13": dict(
+        text="Proof: for every rule list, weight, match list (any mix/order of path, header, query matchers), every request and every value-comparison "
+             "semantics: exact split with other backends/matches/filters untouched, unrelated rules untouched, original rules kept, each generated canary rule "
+             "accepts only requests satisfying one of the user's matches, finalise removes every canary reference and keeps every user rule. The Gallina "
+             "builder is compared with the real EnsureRoutes/Finalise on generated routes and step sequences on every run, and the same boolean oracles are "
+             "evaluated on the implementation's output. Three genuine defects found this way were repaired (F3, F4, F22).",
+        note="Rules with an empty match list are outside the domain (CRD defaulting). After Finalise the stable backendRef weight is 1 rather than the user's "
+             "original weight (F15, judged under C05, not C13). Sequences are checked on the implementation; the sequence theorem is per step.",
+        design_ref="DESIGN.md section 9, C13"),
     "C12": dict(
         text="Proof: Properties/C12.v states, for every pod list, plan, replica count, batch and every label string, that batch-label writes of "
              "the PatchPodBatchLabel model go only to live new-revision pods not yet labelled for this release, one label per pod, at most "
